@@ -440,6 +440,7 @@ def step (st : State) (w : List String) : State × String :=
         let cuts := if admitsDenial child rcd || admitsDenial f.view rcd then addCut st.cuts k else st.cuts
         ({ st with cuts := cuts }, s!"tgt=t cuts={cuts.length}")
     | _, _, _, _, _ => (st, "bad-op")
+  | "l3" :: _ => (st, "unmodelled")
   | _ => (st, "bad-op")
 
 end Driver.C19
